@@ -49,7 +49,6 @@ def detect_only(prop, letter, extra):
         print('patch does not apply', out[-300:])
         return 2
     try:
-        sh('cargo build --offline', cwd=REPO)
         for c in [prop] + [x for x in extra if x != prop]:
             t0 = time.time()
             rc, out = sh('./check %s --tier quick' % c, cwd=V, timeout=3600)
